@@ -369,6 +369,11 @@ def main(argv):
             for a_, b_ in prs[:2]:
                 pcases.append((a_ + b"\n" + b_ + b"\n", b"1\n2\n", []))
                 pcases.append((b"1\n2\n", a_ + b"\n" + b_ + b"\n", []))
+        # CR-terminated lines on the TARGET side only, on the source side only, on both: `x\r` and `x` are different
+        # lines on either side and must come out byte for byte
+        pcases.append((b"1\n2\n3\n", b"x\r\nx\ny\r\n", []))
+        pcases.append((b"x\r\nx\ny\r\n", b"1\n2\n3\n", []))
+        pcases.append((b"a\r\na\nb\r\r\n", b"a\na\r\nb\r\n", []))
         pcases.append((b"same\n", b"same\n", []))                         # a fresh pair with identical source and target
         pcases.append((b"s1\ns2\ns3\n", b"x\ns1\ns2\n", []))            # targets equal to earlier source lines
         pcases.append((b"k\tx\nk\nq\tk\n", b"1\n2\n3\n", ["-f", "1"]))      # -p with a field key, ragged rows
